@@ -247,6 +247,10 @@ def r6_std_wrappers(text):
     text, n = _call_rewrite(text, r'Vec::from', lambda p, a: f'vec_from_box({a[0]})' if len(a) == 1 else None)
     total += n
 
+    # `a[lo..hi].copy_from_slice(src);` on a local byte array -> arr_copy_from_slice(&mut a, lo, hi, src);
+    text, n = re.subn(r'\b(\w+)\[([^\[\]\.]+?)\.\.([^\[\]\.]+?)\]\s*\.copy_from_slice\((.*?)\);',
+                      r'arr_copy_from_slice(&mut \1, \2, \3, \4);', text)
+    total += n
     text, n = re.subn(r'\b(\w+)\.write\(\s*(\w+)\s*\)\s*\.expect\(\s*"[^"]*"\s*\)', r'slice_write(\1, \2)', text)
     total += n
     text, n = re.subn(r'\b([\w\.]+)\[([^\[\]]+?)\.\.([^\[\]]+?)\]\s*\.try_into\(\)\s*\.expect\(\s*"[^"]*"\s*\)',
